@@ -82,6 +82,13 @@ def run(repo, res):
                   'binding %s does not reach %s although Python evaluates it after the binding'
                   % (key, nv or 'the code after the construct'),
                   sample='%s reaches every later sibling and the continuation' % key)
+        # a binding visible at a read Python evaluates before it *replaces* the definition that read actually obtains: in
+        # `x = x + 1`, `def f(g=f)`, `class A(A if c else B)` the earlier binding is the one read - if the new one shadows it
+        # there, the earlier one is not among the definitions of the read (false W01 on it)
+        vb = sorted({p for _, p in r['visible_before']})
+        res.check('C02-R1', key + ' does not shadow what its own expressions read', not vb, r['line'][0], r['line'][1],
+                  'binding %s is already visible at %s, which Python evaluates before the binding exists: a read of the same name '
+                  'there obtains the earlier binding, which supp no longer associates with it' % (key, vb), nontrivial=False)
     res.count('binders', len(brecs), floor=45)
 
     # ---- R2 all alternatives marked / expanded ----------------------------------------
